@@ -244,6 +244,7 @@ func vQueue(name, path string, parent *Queue, leaf bool) *Queue {
 	q.parent = parent
 	q.isLeaf = leaf
 	q.isManaged = true
+	q.queueEvents = schedEvt.NewQueueEvents(events.GetEventSystem())
 	if parent != nil {
 		parent.children[name] = q
 	}
